@@ -532,6 +532,209 @@ pub proof fn lemma_seq_len_card(s: Seq<BlockRange>)
     }
 }
 
+
+pub proof fn lemma_sub_has(s: Seq<BlockRange>, a: int, b: int, h: int)
+    requires 0 <= a <= b <= s.len()
+    ensures seq_has(s.subrange(a, b), h) == (exists|k: int| a <= k < b && r_has(#[trigger] s[k], h))
+{
+    let t = s.subrange(a, b);
+    if seq_has(t, h) {
+        let k = choose|k: int| 0 <= k < t.len() && r_has(#[trigger] t[k], h);
+        assert(t[k] == s[a + k]);
+    }
+    if exists|k: int| a <= k < b && r_has(#[trigger] s[k], h) {
+        let k = choose|k: int| a <= k < b && r_has(#[trigger] s[k], h);
+        assert(t[k - a] == s[k]);
+    }
+}
+pub proof fn lemma_suffix_step(s: Seq<BlockRange>, i: int)
+    requires 0 <= i < s.len()
+    ensures forall|h: int| #![trigger seq_has(s.subrange(i, s.len() as int), h)]
+        seq_has(s.subrange(i, s.len() as int), h) == (r_has(s[i], h) || seq_has(s.subrange(i + 1, s.len() as int), h))
+{
+    assert forall|h: int| #![trigger seq_has(s.subrange(i, s.len() as int), h)]
+        seq_has(s.subrange(i, s.len() as int), h) == (r_has(s[i], h) || seq_has(s.subrange(i + 1, s.len() as int), h)) by {
+        lemma_sub_has(s, i, s.len() as int, h);
+        lemma_sub_has(s, i + 1, s.len() as int, h);
+    }
+}
+pub proof fn lemma_sorted_sep(s: Seq<BlockRange>, i: int, j: int, x: int, y: int)
+    requires wf_seq(s), 0 <= i < j < s.len(), r_has(s[i], x), r_has(s[j], y)
+    ensures x < y
+{
+    assert(s[i]@.end + 1 < s[j]@.start);
+}
+
+
+pub proof fn lemma_suffix_above(s: Seq<BlockRange>, i: int)
+    requires wf_seq(s), 0 <= i < s.len()
+    ensures forall|h: int| #![trigger seq_has(s.subrange(i + 1, s.len() as int), h)] seq_has(s.subrange(i + 1, s.len() as int), h) ==> h > s[i]@.end + 1
+{
+    assert forall|h: int| #![trigger seq_has(s.subrange(i + 1, s.len() as int), h)] seq_has(s.subrange(i + 1, s.len() as int), h) implies h > s[i]@.end + 1 by {
+        lemma_sub_has(s, i + 1, s.len() as int, h);
+        let k = choose|k: int| i + 1 <= k < s.len() && r_has(#[trigger] s[k], h);
+        assert(s[i]@.end + 1 < s[k]@.start);
+    }
+}
+pub proof fn lemma_prefix_below(s: Seq<BlockRange>, i: int)
+    requires wf_seq(s), 0 <= i < s.len()
+    ensures forall|h: int| #![trigger seq_has(s.subrange(0, i), h)] seq_has(s.subrange(0, i), h) ==> h + 1 < s[i]@.start
+{
+    assert forall|h: int| #![trigger seq_has(s.subrange(0, i), h)] seq_has(s.subrange(0, i), h) implies h + 1 < s[i]@.start by {
+        lemma_sub_has(s, 0, i, h);
+        let k = choose|k: int| 0 <= k < i && r_has(#[trigger] s[k], h);
+        assert(s[k]@.end + 1 < s[i]@.start);
+    }
+}
+// one iteration of headn: T0 (taken so far, from the ranges above i) plus the top `rl` heights of s[i]
+pub proof fn lemma_headn_step(s: Seq<BlockRange>, i: int, t0: ISet<int>, t1: ISet<int>, r: BlockRange, len0: int, limit: int)
+    requires
+        wf_seq(s), 0 <= i < s.len(), 0 <= len0 < limit,
+        t0.finite(), t0.len() == len0,
+        t0 == seq_view(s.subrange(i + 1, s.len() as int)),
+        forall|h: int| r_has(r, h) <==> (r_has(s[i], h) && h + (limit - len0) > s[i]@.end),
+        r_len(r) == (if r_len(s[i]) <= limit - len0 { r_len(s[i]) } else { limit - len0 }),
+        t1 == t0.union(r_set(r)),
+    ensures
+        t1.finite(), t1.len() == len0 + r_len(r),
+        t1.subset_of(seq_view(s.subrange(i, s.len() as int))),
+        len0 + r_len(r) < limit ==> t1 == seq_view(s.subrange(i, s.len() as int)),
+        forall|x: int, y: int| t1.contains(x) && seq_has(s.subrange(i, s.len() as int), y) && !t1.contains(y) ==> y < x,
+{
+    broadcast use vstd::iset::group_iset_lemmas;
+    lemma_suffix_step(s, i);
+    lemma_suffix_above(s, i);
+    lemma_iv_len(r@.start as int, r@.end as int);
+    assert(r_set(r) =~= iv(r@.start as int, r@.end as int));
+    assert(r_valid(s[i]));
+    assert(t0.disjoint(r_set(r)));
+    lemma_disj_union_len(t0, r_set(r));
+    if len0 + r_len(r) < limit {
+        assert(r_set(r) =~= r_set(s[i])) by {
+            assert forall|h: int| r_has(s[i], h) implies r_has(r, h) by { }
+        }
+        assert(t1 =~= seq_view(s.subrange(i, s.len() as int)));
+    }
+    assert forall|x: int, y: int| t1.contains(x) && seq_has(s.subrange(i, s.len() as int), y) && !t1.contains(y) implies y < x by {
+        assert(r_has(s[i], y));
+    }
+}
+pub proof fn lemma_headn_final(s: Seq<BlockRange>, i: int, t: ISet<int>, len: int, limit: int)
+    requires
+        wf_seq(s), 0 <= i <= s.len(), 0 <= len <= limit,
+        i == 0 || len == limit,
+        t.finite(), t.len() == len,
+        t.subset_of(seq_view(s.subrange(i, s.len() as int))),
+        len < limit ==> t == seq_view(s.subrange(i, s.len() as int)),
+        forall|x: int, y: int| t.contains(x) && seq_has(s.subrange(i, s.len() as int), y) && !t.contains(y) ==> y < x,
+        seq_view(s).finite(),
+    ensures
+        t.subset_of(seq_view(s)),
+        forall|x: int, y: int| t.contains(x) && seq_view(s).contains(y) && !t.contains(y) ==> y < x,
+        t.len() == (if seq_view(s).len() <= limit { seq_view(s).len() } else { limit as nat }),
+{
+    broadcast use vstd::iset::group_iset_lemmas;
+    let n = s.len() as int;
+    assert forall|h: int| t.contains(h) implies seq_view(s).contains(h) by {
+        assert(seq_view(s.subrange(i, n)).contains(h));
+        lemma_sub_has(s, i, n, h);
+    }
+    assert forall|x: int, y: int| t.contains(x) && seq_view(s).contains(y) && !t.contains(y) implies y < x by {
+        assert(seq_view(s.subrange(i, n)).contains(x));
+        lemma_sub_has(s, i, n, x);
+        lemma_sub_has(s, i, n, y);
+        if !seq_has(s.subrange(i, n), y) {
+            let kx = choose|k: int| i <= k < n && r_has(#[trigger] s[k], x);
+            let ky = choose|k: int| 0 <= k < s.len() && r_has(#[trigger] s[k], y);
+            lemma_sorted_sep(s, ky, kx, y, x);
+        }
+    }
+    vstd::iset_lib::lemma_len_subset(t, seq_view(s));
+    if len < limit {
+        assert(s.subrange(0, n) =~= s);
+    }
+}
+
+
+pub proof fn lemma_prefix_step(s: Seq<BlockRange>, i: int)
+    requires 0 <= i < s.len()
+    ensures forall|h: int| #![trigger seq_has(s.subrange(0, i + 1), h)]
+        seq_has(s.subrange(0, i + 1), h) == (r_has(s[i], h) || seq_has(s.subrange(0, i), h))
+{
+    assert forall|h: int| #![trigger seq_has(s.subrange(0, i + 1), h)]
+        seq_has(s.subrange(0, i + 1), h) == (r_has(s[i], h) || seq_has(s.subrange(0, i), h)) by {
+        lemma_sub_has(s, 0, i + 1, h);
+        lemma_sub_has(s, 0, i, h);
+    }
+}
+pub proof fn lemma_tailn_step(s: Seq<BlockRange>, i: int, t0: ISet<int>, t1: ISet<int>, r: BlockRange, len0: int, limit: int)
+    requires
+        wf_seq(s), 0 <= i < s.len(), 0 <= len0 < limit,
+        t0.finite(), t0.len() == len0,
+        t0 == seq_view(s.subrange(0, i)),
+        forall|h: int| r_has(r, h) <==> (r_has(s[i], h) && h < s[i]@.start + (limit - len0)),
+        r_len(r) == (if r_len(s[i]) <= limit - len0 { r_len(s[i]) } else { limit - len0 }),
+        t1 == t0.union(r_set(r)),
+    ensures
+        t1.finite(), t1.len() == len0 + r_len(r),
+        t1.subset_of(seq_view(s.subrange(0, i + 1))),
+        len0 + r_len(r) < limit ==> t1 == seq_view(s.subrange(0, i + 1)),
+        forall|x: int, y: int| t1.contains(x) && seq_has(s.subrange(0, i + 1), y) && !t1.contains(y) ==> y > x,
+{
+    broadcast use vstd::iset::group_iset_lemmas;
+    lemma_prefix_step(s, i);
+    lemma_prefix_below(s, i);
+    lemma_iv_len(r@.start as int, r@.end as int);
+    assert(r_set(r) =~= iv(r@.start as int, r@.end as int));
+    assert(r_valid(s[i]));
+    assert(t0.disjoint(r_set(r)));
+    lemma_disj_union_len(t0, r_set(r));
+    if len0 + r_len(r) < limit {
+        assert(r_set(r) =~= r_set(s[i])) by {
+            assert forall|h: int| r_has(s[i], h) implies r_has(r, h) by { }
+        }
+        assert(t1 =~= seq_view(s.subrange(0, i + 1)));
+    }
+    assert forall|x: int, y: int| t1.contains(x) && seq_has(s.subrange(0, i + 1), y) && !t1.contains(y) implies y > x by {
+        assert(r_has(s[i], y));
+    }
+}
+pub proof fn lemma_tailn_final(s: Seq<BlockRange>, i: int, t: ISet<int>, len: int, limit: int)
+    requires
+        wf_seq(s), 0 <= i <= s.len(), 0 <= len <= limit,
+        i == s.len() || len == limit,
+        t.finite(), t.len() == len,
+        t.subset_of(seq_view(s.subrange(0, i))),
+        len < limit ==> t == seq_view(s.subrange(0, i)),
+        forall|x: int, y: int| t.contains(x) && seq_has(s.subrange(0, i), y) && !t.contains(y) ==> y > x,
+        seq_view(s).finite(),
+    ensures
+        t.subset_of(seq_view(s)),
+        forall|x: int, y: int| t.contains(x) && seq_view(s).contains(y) && !t.contains(y) ==> y > x,
+        t.len() == (if seq_view(s).len() <= limit { seq_view(s).len() } else { limit as nat }),
+{
+    broadcast use vstd::iset::group_iset_lemmas;
+    let n = s.len() as int;
+    assert forall|h: int| t.contains(h) implies seq_view(s).contains(h) by {
+        assert(seq_view(s.subrange(0, i)).contains(h));
+        lemma_sub_has(s, 0, i, h);
+    }
+    assert forall|x: int, y: int| t.contains(x) && seq_view(s).contains(y) && !t.contains(y) implies y > x by {
+        assert(seq_view(s.subrange(0, i)).contains(x));
+        lemma_sub_has(s, 0, i, x);
+        lemma_sub_has(s, 0, i, y);
+        if !seq_has(s.subrange(0, i), y) {
+            let kx = choose|k: int| 0 <= k < i && r_has(#[trigger] s[k], x);
+            let ky = choose|k: int| 0 <= k < s.len() && r_has(#[trigger] s[k], y);
+            lemma_sorted_sep(s, kx, ky, x, y);
+        }
+    }
+    vstd::iset_lib::lemma_len_subset(t, seq_view(s));
+    if len < limit {
+        assert(s.subrange(0, n) =~= s);
+    }
+}
+
 // facts connecting the set view with per-range predicates
 pub proof fn lemma_disjoint_iff(s: Seq<BlockRange>, r: BlockRange)
     requires r_valid(r), wf_seq(s)
@@ -694,7 +897,7 @@ pub trait BlockRangeExt: Sized {
             r_len(r.rng()) > 0 ==> (r_valid(r.rng()) <==> r_valid(self.rng())) && r.rng()@.end == self.rng()@.end;
 
     fn tailn(&self, limit: u64) -> (r: Self)
-        requires !self.rng()@.exhausted, self.rng()@.start + limit <= u64::MAX
+        requires !self.rng()@.exhausted
         ensures
             !r.rng()@.exhausted,
             forall|h: int| r_has(r.rng(), h) <==> (r_has(self.rng(), h) && h < self.rng()@.start + limit),
@@ -1354,6 +1557,102 @@ impl BlockRanges {
             }
 //@hint before "edges" last
         proof { assert(self.0@.subrange(0, self.0@.len() as int) =~= self.0@); }
+//@end
+
+
+//@fn impl BlockRanges :: headn
+//@props C17
+    pub fn headn(&self, limit: u64) -> (r: BlockRanges)
+        requires self.wf()
+        ensures
+            r.wf(), r@.subset_of(self@),
+            forall|x: int, y: int| r@.contains(x) && self@.contains(y) && !r@.contains(y) ==> y < x,
+            r@.finite(), self@.finite(),
+            r@.len() == (if self@.len() <= limit { self@.len() } else { limit as nat }),
+//@ascribe "let mut len = 0;" => "let mut len: u64 = 0; let ghost n = self.0@.len() as int; let ghost mut g: int = n;"
+//@sub E1 ".insert_relaxed(r)" => ".insert_relaxed(&r)"
+//@hint before "for range in self.0.iter().rev() {"
+        proof {
+            broadcast use vstd::iset::group_iset_lemmas;
+            assert(truncated@ =~= seq_view(self.0@.subrange(n, n)));
+            lemma_seq_len_card(truncated.0@);
+        }
+//@for 1
+//@loop 1
+            invariant_except_break
+                g == __i1,
+            invariant
+                __i1 <= self.0.len(), self.wf(), truncated.wf(), n == self.0@.len(),
+                0 <= g <= n,
+                len <= limit,
+                truncated@.finite(), truncated@.len() == len,
+                truncated@.subset_of(seq_view(self.0@.subrange(g, n))),
+                len < limit ==> truncated@ == seq_view(self.0@.subrange(g, n)),
+                forall|x: int, y: int| truncated@.contains(x) && seq_has(self.0@.subrange(g, n), y) && !truncated@.contains(y) ==> y < x,
+            ensures g == 0 || len == limit
+            decreases __i1
+//@hint before "let r = range.headn(limit - len);"
+            let ghost t0 = truncated@; let ghost len0 = len;
+//@hint after ".expect(\"BlockRanges always holds valid ranges\");"
+            proof {
+                lemma_headn_step(self.0@, __i1 as int, t0, truncated@, r, len0 as int, limit as int);
+            }
+//@hint after "debug_assert!(len <= limit);"
+            proof { g = __i1 as int; }
+//@hint before "truncated" last
+        proof {
+            broadcast use vstd::iset::group_iset_lemmas;
+            lemma_seq_len_card(self.0@);
+            lemma_headn_final(self.0@, g, truncated@, len as int, limit as int);
+        }
+//@end
+
+
+//@fn impl BlockRanges :: tailn
+//@props C17
+    pub fn tailn(&self, limit: u64) -> (r: BlockRanges)
+        requires self.wf()
+        ensures
+            r.wf(), r@.subset_of(self@),
+            forall|x: int, y: int| r@.contains(x) && self@.contains(y) && !r@.contains(y) ==> y > x,
+            r@.finite(), self@.finite(),
+            r@.len() == (if self@.len() <= limit { self@.len() } else { limit as nat }),
+//@ascribe "let mut len = 0;" => "let mut len: u64 = 0; let ghost n = self.0@.len() as int; let ghost mut g: int = 0;"
+//@sub E1 ".insert_relaxed(r)" => ".insert_relaxed(&r)"
+//@hint before "for range in self.0.iter() {"
+        proof {
+            broadcast use vstd::iset::group_iset_lemmas;
+            assert(truncated@ =~= seq_view(self.0@.subrange(0, 0)));
+            lemma_seq_len_card(truncated.0@);
+        }
+//@for 1
+//@loop 1
+            invariant_except_break
+                g == __i1,
+            invariant
+                __i1 <= self.0.len(), self.wf(), truncated.wf(), n == self.0@.len(),
+                0 <= g <= n,
+                len <= limit,
+                truncated@.finite(), truncated@.len() == len,
+                truncated@.subset_of(seq_view(self.0@.subrange(0, g))),
+                len < limit ==> truncated@ == seq_view(self.0@.subrange(0, g)),
+                forall|x: int, y: int| truncated@.contains(x) && seq_has(self.0@.subrange(0, g), y) && !truncated@.contains(y) ==> y > x,
+            ensures g == n || len == limit
+            decreases self.0.len() - __i1
+//@hint before "let r = range.tailn(limit - len);"
+            let ghost t0 = truncated@; let ghost len0 = len;
+//@hint after ".expect(\"BlockRanges always holds valid ranges\");"
+            proof {
+                lemma_tailn_step(self.0@, __i1 as int - 1, t0, truncated@, r, len0 as int, limit as int);
+            }
+//@hint after "debug_assert!(len <= limit);"
+            proof { g = __i1 as int; }
+//@hint before "truncated" last
+        proof {
+            broadcast use vstd::iset::group_iset_lemmas;
+            lemma_seq_len_card(self.0@);
+            lemma_tailn_final(self.0@, g, truncated@, len as int, limit as int);
+        }
 //@end
 
 } // impl BlockRanges
